@@ -315,6 +315,12 @@ func (fc *FnCtx) setupEntry() {
 		sc := fc.funcScope(fc.env, fc.env, nil)
 		for _, g := range fc.contract.Ghosts {
 			t, _ := sc.tr(g.Init)
+			if want := u.SortOf(fc.ghostTypes[g.Name]); t.Sort != want {
+				// "= nil" for a slice-typed ghost and the like: the zero value
+				if _, ok := g.Init.(*ENil); ok {
+					t = u.Zero(fc.ghostTypes[g.Name])
+				}
+			}
 			fc.assign("g_"+g.Name, t)
 		}
 		for _, r := range fc.contract.Requires {
